@@ -335,6 +335,10 @@ impl CoreInner {
 		crate::verif::yield_point("flush:table-written");
 		// Step 4: Apply changeset atomically
 		// Lock order: level_manifest → immutable_memtables
+		#[cfg(surrealkv_verif)]
+		crate::verif::acquire_point("flush:manifest-write-lock", &|| {
+			self.level_manifest.try_write().is_err()
+		});
 		let mut manifest = self.level_manifest.write()?;
 		let mut memtable_lock = self.immutable_memtables.write()?;
 
